@@ -3,6 +3,7 @@ package main
 import (
 	"fmt"
 	"math/rand"
+	"reflect"
 	"sort"
 )
 
@@ -375,6 +376,113 @@ func (g *graph) omissions(t *T, env *T, depth int) []any {
 	return out
 }
 
+// contract rewrites an input into the single-property shorthand wherever that is possible: a map holding
+// exactly the only property of a single-property object is replaced by the value of that property when the
+// latter is not itself a map (a map would be read as the object's map spelling again).
+func (g *graph) contract(t *T, env *T, v any) any {
+	switch t.Kind {
+	case "leaf":
+		return v
+	case "ref":
+		o, e := g.x.target(t, env)
+		if o == nil {
+			return v
+		}
+		return g.contract(o, e, v)
+	case "scope":
+		return g.contract(t.objByID(t.ID), t, v)
+	case "list":
+		l, ok := v.([]any)
+		if !ok {
+			return v
+		}
+		out := make([]any, len(l))
+		for i, x := range l {
+			out[i] = g.contract(t.Sub[0], env, x)
+		}
+		return out
+	case "map":
+		m, ok := v.(map[string]any)
+		if !ok {
+			return v
+		}
+		out := map[string]any{}
+		for k, x := range m {
+			out[k] = g.contract(t.Sub[0], env, x)
+		}
+		return out
+	case "oneof":
+		m, ok := v.(map[string]any)
+		if !ok {
+			return v
+		}
+		for i, mem := range t.Sub {
+			if m[discField] == keys[i] {
+				rest := map[string]any{}
+				for k, x := range m {
+					if k != discField {
+						rest[k] = x
+					}
+				}
+				c, isMap := g.contract(mem, env, rest).(map[string]any)
+				if !isMap {
+					return v // a one-of member must stay a map: it carries the discriminator
+				}
+				c[discField] = keys[i]
+				return c
+			}
+		}
+		return v
+	}
+	m, ok := v.(map[string]any)
+	if !ok {
+		return v
+	}
+	out := map[string]any{}
+	for k, x := range m {
+		out[k] = x
+	}
+	for _, p := range t.Props {
+		if x, has := m[p.Name]; has {
+			out[p.Name] = g.contract(p.Type, env, x)
+		}
+	}
+	if len(t.Props) == 1 && len(out) == 1 && t.Props[0].Dis == "" {
+		if inner, has := out[t.Props[0].Name]; has && inner != nil {
+			if _, isMap := inner.(map[string]any); !isMap {
+				return inner
+			}
+		}
+	}
+	return out
+}
+
+// spellings: the input as given and with every possible single-property shorthand; both go through the
+// usual comparisons, and the scope must give both the same verdict and value ("self-referential object
+// graphs work on all finite inputs": a finite tree stays acceptable whichever way its nodes are spelled).
+func (g *graph) spellings(res *resT, p *pair, tree *T, v any, label map[string]any, skip map[string]bool) (accepted bool) {
+	p.compare(res, func() any { return deepCopy(v) }, nil, label)
+	okL, vL := p.lastOK, p.lastVal
+	accepted = okL
+	short := g.contract(tree, tree, deepCopy(v))
+	key := canon(short)
+	if key == canon(v) || skip[key] || g.hasLoop(tree, tree, short, map[node]bool{}) {
+		return
+	}
+	_, judged := p.compare(res, func() any { return deepCopy(short) }, nil, merge(label, map[string]any{"raw": key, "spelling": "shorthand"}))
+	if !judged {
+		return
+	}
+	res.Spelled++
+	if okL != p.lastOK || (okL && !reflect.DeepEqual(vL, p.lastVal)) {
+		res.add(false, map[string]any{"op": "unserialize", "class": "shorthand_differs"},
+			map[string]any{"longhand": canon(v), "shorthand": key, "longhand_ok": okL, "shorthand_ok": p.lastOK,
+				"shorthand_error": res.lastErr,
+				"note":            "the same finite value, written with maps and with the single-property shorthand"})
+	}
+	return accepted
+}
+
 func generated(res *resT, p *pair, g *graph, tree, inl *T, gen genT, skip map[string]bool) (late []func()) {
 	rng := rand.New(rand.NewSource(gen.Seed))
 	if gen.N > 0 {
@@ -388,7 +496,7 @@ func generated(res *resT, p *pair, g *graph, tree, inl *T, gen genT, skip map[st
 			if skip[key] || g.hasLoop(tree, tree, v, map[node]bool{}) {
 				continue
 			}
-			p.compare(res, func() any { return deepCopy(v) }, nil, map[string]any{"raw": key, "origin": "omission"})
+			g.spellings(res, p, tree, v, map[string]any{"raw": key, "origin": "omission"}, skip)
 		}
 	}
 	markers := markersOf(tree, g.x.ext)
@@ -403,7 +511,7 @@ func generated(res *resT, p *pair, g *graph, tree, inl *T, gen genT, skip map[st
 			continue
 		}
 		f := func() {
-			p.compare(res, func() any { return deepCopy(v) }, nil, map[string]any{"raw": key, "origin": "random"})
+			g.spellings(res, p, tree, v, map[string]any{"raw": key, "origin": "random"}, skip)
 		}
 		if g.hasLoop(tree, tree, v, map[node]bool{}) {
 			res.Loops++
@@ -435,8 +543,8 @@ func generated(res *resT, p *pair, g *graph, tree, inl *T, gen genT, skip map[st
 		if skip[key] {
 			continue
 		}
-		ok, judged := p.compare(res, func() any { return deepCopy(v) }, nil, map[string]any{"raw": key, "origin": "chain", "depth": d})
-		smallOK = smallOK && ok && judged
+		ok := g.spellings(res, p, tree, v, map[string]any{"raw": key, "origin": "chain", "depth": d}, skip)
+		smallOK = smallOK && ok
 	}
 	if !smallOK {
 		res.add(true, map[string]any{"op": "unserialize", "class": "chain_generator"}, map[string]any{"note": "a generated chain was rejected at small depth", "error": res.lastErr})
